@@ -251,6 +251,8 @@ def write_xlsx(desc, dirpath, sheet_order=None):
                     ws[addr] = '=' + formula_text(desc, cell['f'], (b, s))
                 else:
                     ws[addr] = cell['v']
+        if desc.get('empty_sheet'):
+            wb.create_sheet('Empty %d' % b)      # a sheet without any content
         for name, node in desc.get('names', {}).items():
             if node[1] != b:
                 continue
